@@ -118,6 +118,12 @@ func verifC05Shape(maxCols, maxBody, bigLen, smallLen int) {
 		}
 	}
 	vfAssert(t.NColumns() == cols, "ncolumns")
+	// a caller that took the row list and scribbled on its copy does not affect what is rendered
+	if rows := t.AllRows(); len(rows) >= 2 && vfChoice("scribble", 2) == 1 {
+		rows[0], rows[len(rows)-1] = rows[len(rows)-1], rows[0]
+		rows[0] = nil
+		vfTag("row-list-copy-mutated")
+	}
 	out, err := t.Render()
 	vfObserveStr("out", out)
 	vfObserveBool("err", err != nil)
